@@ -15,15 +15,20 @@ package crypto
 // what is signed, and what a signature is checked against, is the SHA-256 digest of the WHOLE message handed in - for
 // every message, also one that happens to be 32 bytes long: a signature for data m says nothing about other data
 //@ func (ECDSAPriv).Sign
+//@   recvname e
+//@   params msg
 //@   at call ecdsa.Sign: assert [C19] @signsDigestOfMessage sametable(arg2, sha256of(msg))
 //@   loops 0
 //@   modifies nothing
 //@   ensures [C19] @sixtyFourBytes implies(result1 == nil, len(result0) == 64)
 //@ func (ECDSAPub).Verify
+//@   recvname e
+//@   params msg, sig
 //@   at call ecdsa.Verify: assert [C19] @checksDigestOfMessage sametable(arg1, sha256of(msg))
 //@   loops 0
 //@   modifies nothing
 //@   requires len(sig) >= 64
 //@ func Hash160
+//@   params data
 //@   loops 0
 //@   nopanic
